@@ -199,11 +199,19 @@ func (lm *lemmas) argumentsIndexSafe(in ssa.Instruction, idx ssa.Value) (bool, s
 	// 1. the index is the counter of a range over f.Declaration.Params
 	cn := &Canon{p: p}
 	li := cn.expr(idx)
-	if !strings.HasPrefix(li.base, "v:") || li.off != 1 {
-		return false, "lemma a: index " + describe(idx) + " is not a range counter"
-	}
 	blk := in.Block()
 	var rangedOver ssa.Value
+	if ph, ok := idx.(*ssa.Phi); ok && rangeLikeCounter(ph.Block()) == ph {
+		// `for k := 0; k < len(params); k++ { … arguments[k] … }`
+		if iff, ok := ph.Block().Instrs[len(ph.Block().Instrs)-1].(*ssa.If); ok {
+			if bo, ok := iff.Cond.(*ssa.BinOp); ok {
+				rangedOver = lenArg(bo.Y)
+			}
+		}
+		blk = nil
+	} else if !strings.HasPrefix(li.base, "v:") || li.off != 1 {
+		return false, "lemma a: index " + describe(idx) + " is not a range counter"
+	}
 	for b := blk; b != nil; b = b.Idom() {
 		if strings.HasPrefix(b.Comment, "rangeindex.loop") {
 			if iff, ok := b.Instrs[len(b.Instrs)-1].(*ssa.If); ok {
